@@ -85,33 +85,33 @@ theorem mem_dropWhile_of_false {α} (p : α → Bool) (x : α) (l : List α) (hx
       · exact ih e
     · simp only [ha, if_false]; exact hx
 
-theorem digitsVal_colon (t : List Char) (h : ':' ∈ t) (acc : Nat) (pd : Bool) : Py.digitsVal 10 t acc pd = none := by
+theorem digitsVal_bad (x : Char) (hu : (x == '_') = false) (hd : Py.digitVal 10 x = none)
+    (t : List Char) (h : x ∈ t) (acc : Nat) (pd : Bool) : Py.digitsVal 10 t acc pd = none := by
   induction t generalizing acc pd with
   | nil => exact absurd h (by simp)
   | cons c r ih =>
     unfold Py.digitsVal
     rcases List.mem_cons.mp h with e | e
     · subst e
-      have h1 : ((':' : Char) == '_') = false := by decide
-      have h2 : Py.digitVal 10 ':' = none := by decide
-      simp [h1, h2]
-    · by_cases hu : (c == '_') = true
-      · simp only [hu, if_true]
+      simp [hu, hd]
+    · by_cases hu' : (c == '_') = true
+      · simp only [hu', if_true]
         split
         · exact ih e _ _
         · rfl
-      · simp only [hu]
+      · simp only [hu']
         cases Py.digitVal 10 c with
         | none => rfl
         | some d => exact ih e _ _
 
-/-- CPython's `int()` refuses anything containing ':' -/
-theorem pyInt_colon (s : List Char) (h : ':' ∈ s) : Py.pyInt 10 s = none := by
+/-- CPython's `int()` refuses anything containing a character that is not whitespace, sign,
+    underscore or digit -/
+theorem pyInt_bad (x : Char) (hws : Py.isWs x = false) (hxp : (x == '+') = false) (hxm : (x == '-') = false)
+    (hu : (x == '_') = false) (hd : Py.digitVal 10 x = none) (s : List Char) (h : x ∈ s) : Py.pyInt 10 s = none := by
   unfold Py.pyInt
   split
   · rfl
-  · have hws : Py.isWs ':' = false := by decide
-    have hmem : ':' ∈ Py.stripWs s := by
+  · have hmem : x ∈ Py.stripWs s := by
       unfold Py.stripWs
       rw [List.mem_reverse]
       apply mem_dropWhile_of_false _ _ _ _ hws
@@ -127,16 +127,16 @@ theorem pyInt_colon (s : List Char) (h : ':' ∈ s) : Py.pyInt 10 s = none := by
       simp only [hpref]
       generalize hpair : (if (c == '+') = true then (false, r) else if (c == '-') = true then (true, r) else (false, c :: r)) = pr
       obtain ⟨neg, t2⟩ := pr
-      have ht2 : ':' ∈ t2 := by
+      have ht2 : x ∈ t2 := by
         by_cases hp : (c == '+') = true
-        · have hc : c ≠ ':' := by intro e; subst e; exact absurd hp (by decide)
+        · have hc : c ≠ x := by intro e; subst e; rw [hxp] at hp; cases hp
           simp only [hp, if_true, Prod.mk.injEq] at hpair
           rw [← hpair.2]
           rcases List.mem_cons.mp hmem with e | e
           · exact absurd e.symm hc
           · exact e
         · by_cases hm : (c == '-') = true
-          · have hc : c ≠ ':' := by intro e; subst e; exact absurd hm (by decide)
+          · have hc : c ≠ x := by intro e; subst e; rw [hxm] at hm; cases hm
             simp only [hp, hm, if_true, Bool.false_eq_true, if_false, Prod.mk.injEq] at hpair
             rw [← hpair.2]
             rcases List.mem_cons.mp hmem with e | e
@@ -152,11 +152,17 @@ theorem pyInt_colon (s : List Char) (h : ':' ∈ s) : Py.pyInt 10 s = none := by
           exfalso
           split at heq2
           · simp only [List.contains_nil, Bool.false_eq_true, if_false] at heq2
-            rw [digitsVal_colon _ ht2] at heq2
+            rw [digitsVal_bad x hu hd _ ht2] at heq2
             cases heq2
-          · rw [digitsVal_colon _ ht2] at heq2
+          · rw [digitsVal_bad x hu hd _ ht2] at heq2
             cases heq2
         · rfl
+
+theorem pyInt_colon (s : List Char) (h : ':' ∈ s) : Py.pyInt 10 s = none :=
+  pyInt_bad ':' (by decide) (by decide) (by decide) (by decide) (by decide) s h
+
+theorem pyInt_dot (s : List Char) (h : '.' ∈ s) : Py.pyInt 10 s = none :=
+  pyInt_bad '.' (by decide) (by decide) (by decide) (by decide) (by decide) s h
 
 theorem mapM_none {α β} (f : α → Option β) (l : List α) (x : α) (hx : x ∈ l) (hf : f x = none) : l.mapM f = none := by
   induction l with
